@@ -5,10 +5,12 @@
      do_op msize next o ans   one operation of the layer with fs.nextfid = next; ans is the
                               answer of the session to the call it issues; yields
                               (call issued, result for the caller, nextfid afterwards)
-     step / run               the same composed with the caller's bookkeeping s_live (entries
-                              obtained from Attach/Walk and not yet clunked or removed; the entry
-                              Create returns supersedes the one it was created from) and with the
-                              abstract server's table s_srv (attach binds on success, walk binds
+     step / run               the same composed with the caller's bookkeeping s_live (the objects
+                              holding a fid: entries obtained from Attach/Walk and not yet clunked
+                              or removed - the entry Create returns supersedes the one it was created
+                              from - and auth files obtained from Auth and not yet closed, recorded
+                              as (afid, zero qid)) and with the
+                              abstract server's table s_srv (auth and attach bind on success, walk binds
                               newfid iff the answer has as many qids as names were sent, clunk and
                               remove unbind)
      expected_call next o     the session call the property asks for (corresponding call, the
@@ -38,6 +40,26 @@ Theorem C20_forward : forall msize next o ans,
   call_of (do_op msize next o ans) = expected_call next o.
 Proof. exact forward. Qed.
 Print Assumptions C20_forward.
+
+(* the same for the auth file: Read, Write and Close work on exactly the afid that was sent in Tauth *)
+Theorem C20_forward_auth_fid : forall msize next o ans a c,
+  op_afid o = Some a -> call_of (do_op msize next o ans) = Some c -> call_fid c = a.
+Proof. exact forward_auth_fid. Qed.
+Print Assumptions C20_forward_auth_fid.
+
+(* Auth takes a fresh fid; a refused Tauth surfaces as an error, gives the caller nothing and leaves
+   the server's table as it was; an accepted one returns the auth file on that fid *)
+Theorem C20_auth : forall msize st u a ans,
+  let '(st', c, r) := step msize st (OAuth u a) ans in
+  c = Some (SAuth (new_fid (s_next st)) u a)
+  /\ match ans with
+     | AQid _ => r = CAuth (new_fid (s_next st)) (msize - 11)%Z
+                 /\ s_srv st' = new_fid (s_next st) :: s_srv st
+                 /\ map c_fid (s_live st') = new_fid (s_next st) :: map c_fid (s_live st)
+     | _ => r = CErr /\ s_srv st' = s_srv st /\ s_live st' = s_live st
+     end.
+Proof. exact auth_spec. Qed.
+Print Assumptions C20_auth.
 
 Theorem C20_forward_own_fid : forall msize next o ans e c,
   op_ent o = Some e -> call_of (do_op msize next o ans) = Some c -> call_fid c = c_fid e.
@@ -127,3 +149,19 @@ Example C20_ex_history_end :
   let st := run 65536 sys0 (ex_ops1 ++ ex_ops2) in
   s_live st = [] /\ s_srv st = [] /\ (N.of_nat (n_allocs (ex_ops1 ++ ex_ops2)) < 2 ^ 32 - 1).
 Proof. vm_compute. repeat split; reflexivity. Qed.
+
+(* auth files hold fids like entries do: a refused Tauth spends fid 1 and leaves nothing, an accepted
+   one holds fid 2 until Close clunks it; the root attached with it sends afid 2 *)
+Definition ex_ops3 : list (op * sres) :=
+  [ (OAuth [] [], AErr); (OAuth [] [], AQid (8, 0, 0));
+    (OAttach [] [] (AfFile 2), AQid (128, 0, 1));
+    (OARead 2 16 0%Z, ARead [1; 2; 3]) ].
+Example C20_ex_auth_mid :
+  let st := run 65536 sys0 ex_ops3 in
+  s_next st = 3 /\ s_srv st = [3; 2] /\ map c_fid (s_live st) = [3; 2]
+  /\ call_of (do_op 65536 2 (OAttach [] [] (AfFile 2)) (AQid (128, 0, 1))) = Some (SAttach 3 2 [] []).
+Proof. vm_compute. repeat split; reflexivity. Qed.
+Example C20_ex_auth_end :
+  let st := run 65536 sys0 (ex_ops3 ++ [(OAClose 2, AUnit); (OClunk {| c_fid := 3; c_qid := (128, 0, 1) |}, AErr)]) in
+  s_live st = [] /\ s_srv st = [].
+Proof. vm_compute. split; reflexivity. Qed.
